@@ -23,6 +23,7 @@ type C06Params struct {
 	Chain   bool     // the module depends on a second, healthy module (which stops after it and starts before it)
 	Panics  int      // how often the item panics in a row (0 = once); the same item is run again after the first panic
 	FullCh  bool     // the error reporting channel is full and nobody receives: reporting must not block the panicking item
+	Early   bool     // service worker only: it is started from the prep routine (before the module starts) and panics once the module is online
 	Mgmt    bool     // service worker only: module management is on, the module is disabled during the back-off and enabled again afterwards (no management pass in between)
 }
 
@@ -36,6 +37,9 @@ func (p C06Params) Name() string {
 	}
 	if p.FullCh {
 		n += "/fullch"
+	}
+	if p.Early {
+		n += "/early"
 	}
 	return n
 }
@@ -138,8 +142,13 @@ func VerifC06(p C06Params) *vsched.Scenario {
 		s := c06
 		reports := make(chan *ModuleError, 16)
 		if p.FullCh {
-			reports = make(chan *ModuleError, 1)
-			reports <- &ModuleError{Message: "filler"}
+			if p.Value == "error" {
+				// an unbuffered channel whose consumer is busy elsewhere
+				reports = make(chan *ModuleError)
+			} else {
+				reports = make(chan *ModuleError, 1)
+				reports <- &ModuleError{Message: "filler"}
+			}
 		}
 		SetErrorReportingChannel(reports)
 		lifecycle := func(phase string) func() error {
@@ -158,7 +167,20 @@ func VerifC06(p C06Params) *vsched.Scenario {
 			Register("base", nil, nil, func() error { vsched.Ev("stop:base"); return nil })
 			deps = []string{"base"}
 		}
-		m := Register("mod", lifecycle("prep"), lifecycle("start"), lifecycle("stop"), deps...)
+		var fn func(ctx context.Context) error
+		var mod *Module
+		prepFn := lifecycle("prep")
+		earlyBegan := make(chan struct{})
+		moduleOnline := make(chan struct{})
+		if p.Early {
+			prepFn = func() error {
+				mod.StartServiceWorker("sw", 0, func(ctx context.Context) error { return fn(ctx) })
+				<-earlyBegan // the worker is really running before the module is started
+				return nil
+			}
+		}
+		m := Register("mod", prepFn, lifecycle("start"), lifecycle("stop"), deps...)
+		mod = m
 		m.RegisterEvent("ev", true)
 		if p.Mgmt {
 			EnableModuleManagement(func(*Module) {})
@@ -166,9 +188,14 @@ func VerifC06(p C06Params) *vsched.Scenario {
 		}
 		// the panicking function: panics while armed, otherwise behaves (and may wait for cancellation)
 		waitWhenHealthy := p.Kind == "service-worker"
-		fn := func(ctx context.Context) error {
+		fn = func(ctx context.Context) error {
 			s.entered++
 			vsched.Ev(fmt.Sprintf("enter:%d", s.entered))
+			if p.Early && s.entered == 1 {
+				// started before the module: keep running until the module is online, then panic
+				close(earlyBegan)
+				<-moduleOnline
+			}
 			if s.armed > 0 {
 				s.armed--
 				c06panic(p.Value)
@@ -231,6 +258,16 @@ func VerifC06(p C06Params) *vsched.Scenario {
 				vsched.Explore(true)
 			}
 			err := Start()
+			if p.Kind == "stop" && len(p.Healthy) > 0 && err == nil {
+				// healthy work that winds down when the module is stopped: the stop must still report the panic
+				for range p.Healthy {
+					m.StartWorker("hw", func(ctx context.Context) error {
+						<-ctx.Done()
+						vsched.Point("healthy-winding-down")
+						return nil
+					})
+				}
+			}
 			if p.Kind != "stop" {
 				if err == nil {
 					verifFail("lifecycle-panic-makes-call-return-error", "Start/"+p.Kind, "Start returned nil although the %s routine panicked", p.Kind)
@@ -257,6 +294,7 @@ func VerifC06(p C06Params) *vsched.Scenario {
 			return
 		}
 		SetMaxConcurrentMicroTasks(4)
+		close(moduleOnline)
 		vsched.Quiesce()
 		st0 := GetStatus()
 		pre := *st0.Modules["mod"]
@@ -290,7 +328,9 @@ func VerifC06(p C06Params) *vsched.Scenario {
 			case "start-worker":
 				m.StartWorker("w", fn)
 			case "service-worker":
-				m.StartServiceWorker("sw", 0, fn)
+				if !p.Early {
+					m.StartServiceWorker("sw", 0, fn)
+				}
 			case "task-queue":
 				if round > 0 {
 					task.Queue()
@@ -345,7 +385,7 @@ func VerifC06(p C06Params) *vsched.Scenario {
 				// the queue may legitimately stay occupied up to the execution-wait limit
 				vsched.Advance(maxExecutionWait + time.Second)
 			}
-			if s.entered == before {
+			if s.entered == before && !(p.Early && round == 0 && s.entered > 0) {
 				verifFail("harness", "not-entered", "the panicking %s was not entered in round %d", p.Kind, round)
 				return
 			}
@@ -363,8 +403,8 @@ func VerifC06(p C06Params) *vsched.Scenario {
 				exp.Tasks++
 			}
 		}
-		if p.Kind == "service-worker" {
-			exp.Workers++ // it is restarted and keeps running
+		if p.Kind == "service-worker" && !p.Early {
+			exp.Workers++ // it is restarted and keeps running (an early one is already part of the snapshot)
 		}
 		checkCounters := func(when string) {
 			now := *GetStatus().Modules["mod"]
